@@ -82,7 +82,7 @@ SubRsp(r) ==      \* the C-STORE response to the oldest unanswered C-STORE reque
   /\ svc = "get-scu" /\ ~over /\ nsub < Len(items)
   /\ LET q == items[nsub + 1] IN
        /\ r.complete /\ r.ctx = q.ctx /\ r.rmid = q.mid /\ r.cls = q.cls /\ r.inst = q.inst /\ r.type = 32769
-       /\ handler # <<>> /\ r.status = handler[Len(handler)]
+       /\ Len(handler) > nsub /\ r.status = handler[nsub + 1]        \* the outcome of the handler for THIS instance
   /\ nsub' = nsub + 1 /\ UNCHANGED <<svc, req, handler, items, nrsp, ngot, final, over>>
 Deliverable == SelectSeq(items, LAMBDA x : ~x.ehe)     \* an instance the handler refused is answered with the failure status, not handed over
 GotGet(d) ==      \* each received instance is handed to the caller once and in order
